@@ -92,6 +92,8 @@ def split_pieces(c):
     if c.is_atom():
         a = c.expr
         if a.kind == 'max':
+            if a.k == 0 and c.sense == 'le':
+                return [OCons(parr(a.off.reshape(-1)[0]), 'le')]        # 0*max(...) + affine: only the affine part is left
             if a.k <= 0 or c.sense != 'le':
                 raise HarnessError('oracle: non-convex piecewise use')
             off = a.off.reshape(-1)[0]
